@@ -164,12 +164,14 @@ def check_decl(dc, st, tier, only=None):
 
 def run(tier):
     st = ea.run(MODULE, tier)
+    LADDER_NOTE = '; plus the shared size and structure ladders (mc/alphabet.py boundary_specs / structure_specs): lengths and counts 5, 8, 9, 16, 17, 32, 33, 64, 65, 128, 129, 255, 256, 257, 1024, 1025, 4096, 4097, 8192, 8193 behind one-, two- and three-byte length fields with their exact encodings (and the same cut short), constant counts and sizes 15..257 first in a packet, far positions (holes of 255..8192 bytes), chains of 4..8 references, lists of lists of lists, nine-byte integers, bit runs of 40/72/80 bits, declarations of 24 components and runs of 17..40 fixed fields, holders whose options differ from the held class, the nested class alone on the field-by-field loop'
     cov = ea.coverage(st, 'every declaration of the alphabet (minus regex delimiters not kept in the value); value assignments = all distinct values '
                           'the reference parses from the input enumeration plus the defaults, each built by keywords and by attribute assignment; '
                           'pack() == reference encoding always; reparse identity/whole-string consumption/assert_consistency when the reference '
                           'round-trips the encoding; states = distinct (declaration, reference round-trips?, pack outcome, encoding length)',
                       {'value_sets': st.n.get('value_sets', 0), 'not_encodable': st.n.get('not_encodable', 0),
                        'reference_does_not_roundtrip': st.n.get('ref_nonroundtrip', 0)})
+    cov['rule'] += LADDER_NOTE
     return {'stats': st, 'coverage': cov, 'assumptions': ['reference interpreter mc/refsem.py']}
 
 
